@@ -62,6 +62,13 @@ fn c14_ascii_decode_shapes() {
     let b = d.as_bytes();
     assert!(b.len() == 8 && b[0] == 0x41 && b[1] == 0xef && b[2] == 0xbf && b[3] == 0xbd && b[4] == 0xef && b[7] == 0x00,
         "C14: ASCII decode: ASCII bytes map to themselves, others to U+FFFD");
+    // decoding is byte-wise: adjacent high bytes that happen to form a UTF-8 sequence (or a
+    // prefix of one) are still one replacement character each
+    let e = CodePage::UsAscii.decode(&[0xc3, 0xa9, b'z', 0xe2, 0x82]);
+    let eb = e.as_bytes();
+    assert!(eb.len() == 13 && eb[0] == 0xef && eb[3] == 0xef && eb[6] == b'z' && eb[7] == 0xef && eb[10] == 0xef,
+        "C14: US-ASCII decoding must replace every non-ASCII byte by one U+FFFD, whatever its neighbours");
     kani::cover!(true);
     std::mem::forget(d);
+    std::mem::forget(e);
 }
